@@ -52,8 +52,32 @@ def spec_digest(extra=()):
     return sha(*parts)
 
 
+def _prune_old(hours=8):
+    """run directories are per process (two checks may run at the same time); old ones are removed here"""
+    import time
+    now = time.time()
+    for base in (os.path.join(BUILD, "tlc"), os.path.join(BUILD, "traces")):
+        try:
+            for n in os.listdir(base):
+                p = os.path.join(base, n)
+                if now - os.path.getmtime(p) > hours * 3600:
+                    if os.path.isdir(p):
+                        shutil.rmtree(p, ignore_errors=True)
+                    else:
+                        os.remove(p)
+        except OSError:
+            pass
+
+
+_PRUNED = False
+
+
 def _prepare(name, root, defs, cfg):
-    d = os.path.join(BUILD, "tlc", name)
+    global _PRUNED
+    if not _PRUNED:
+        _PRUNED = True
+        _prune_old()
+    d = os.path.join(BUILD, "tlc", f"{name}.{os.getpid()}")
     shutil.rmtree(d, ignore_errors=True)
     os.makedirs(d)
     for f in spec_files():
